@@ -547,6 +547,28 @@ def epoch_canon(e, with_duration=False):
     return s + ':' + ilist(np.asarray(e.duration).reshape(-1)) if with_duration else s
 
 
+# L3 — optional arguments given explicitly, with falsy / equivalent values: the answer must be the one for the
+# default (`boolean=False/0/None/0.0` is the integer-index form, `boolean=1/'yes'` the mask form; TimeSeries.at
+# takes a `tol` that a uniform axis has no use for; `tol=None` is the default tolerance).  The variant is picked
+# deterministically from the protocol line and kept in the meta, so a replay makes the same call.
+L3_BOOL_FALSY = ['omit', 'omit', False, 0, None, 0.0]
+L3_BOOL_TRUTHY = [True, True, 1, 1.0, 'yes']
+L3_SERIES_TOL = ['omit', 'omit', None, 0, 0.0, 1.5, -1, 'T0', 'T1']
+
+
+def l3_pick(m, field, choices, salt):
+    import zlib
+    if field not in m:
+        m[field] = choices[zlib.crc32(salt.encode()) % len(choices)]
+    return m[field]
+
+
+def l3_tol_value(v):
+    if v in ('T0', 'T1'):
+        return ts().TimeArray(np.int64(0 if v == 'T0' else 1), time_unit='ps')
+    return v
+
+
 def _run_case(m, A):
     t = ts()
     op, kind = m['op'], m['kind']
@@ -610,7 +632,7 @@ def _run_case(m, A):
         return 's' if e.data.ndim == 0 else str(len(e))
     if op == 'index_at_bool':
         def f():
-            r = obj.index_at(A.get('q', lambda: rep_build(m['q'])), boolean=True)
+            r = obj.index_at(A.get('q', lambda: rep_build(m['q'])), boolean=l3_pick(m, 'bool_kw', L3_BOOL_TRUTHY, otok + rep_tok(m['q'])))
             if np.asarray(r).dtype != bool:
                 return 'dtype:%s' % np.asarray(r).dtype
             return 'ok B:' + (','.join('1' if v else '0' for v in r) if len(r) else '-')
@@ -618,11 +640,15 @@ def _run_case(m, A):
     if op in ('index_at', 'index_at_cur'):
         q = m['q']
         if kind == 'uaxis':
-            impl = call(lambda: canon_idx(obj.index_at(A.get('q', lambda: rep_build(m['q'])))))
+            bkw = l3_pick(m, 'bool_kw', L3_BOOL_FALSY, otok + rep_tok(q))
+            bkw = {} if isinstance(bkw, str) and bkw == 'omit' else {'boolean': bkw}
+            impl = call(lambda: canon_idx(obj.index_at(A.get('q', lambda: rep_build(m['q'])), **bkw)))
             return Case('C03 %s uaxis %s %s' % (op, otok, rep_tok(q)), impl,
                         'uniform/index_at' + dsuffix + ('/current-model' if op.endswith('cur') else ''),
                         cmp=cmp_cur(m) if op.endswith('cur') else None, meta=m, nontrivial=nt)
         kw = {} if m['tol'] is None else {'tol': A.get('tol', lambda: rep_build(m['tol']))}
+        if m['tol'] is None and l3_pick(m, 'tol_none_explicit', [False, False, True], otok + rep_tok(q) + m['mode']):
+            kw = {'tol': None}
         impl = call(lambda: canon_idx(obj.index_at(A.get('q', lambda: rep_build(m['q'])), mode=m['mode'], **kw)))
         return Case('C03 index_at tarray %s %s %s %s' % (otok, m['mode'], rep_tok(q), '_' if m['tol'] is None else rep_tok(m['tol'])),
                     impl, 'tarray/index_at/' + m['mode'], meta=m, nontrivial=nt)
@@ -642,8 +668,11 @@ def _run_case(m, A):
             return Case('C03 at tarray %s %s %s' % (otok, rep_tok(q), '_' if m['tol'] is None else rep_tok(m['tol'])), impl, 'tarray/at', meta=m, nontrivial=nt)
         sc = rep_actual(q, ax['unit'])[1]
 
+        stol = l3_pick(m, 'series_tol', L3_SERIES_TOL, otok + rep_tok(q))
+        skw = {} if isinstance(stol, str) and stol == 'omit' else {'tol': l3_tol_value(stol)}
+
         def f():
-            r = np.asarray(obj.at(A.get('q', lambda: rep_build(m['q']))))
+            r = np.asarray(obj.at(A.get('q', lambda: rep_build(m['q'])), **skw))
             m['impl_shape'] = list(r.shape)
             return 'ok ' + canon_data(r, 's', 's' if sc else r.shape[-1])
         return Case('C03 at series %s %s' % (otok, rep_tok(q)), call(f), 'series/at', meta=m, nontrivial=nt)
